@@ -32,6 +32,7 @@ KERNELS = {
     "C13": ["k_map_merge"],
     "C12": ["k_numeric_cmp", "k_value_eq_symmetric"],
     "C14": ["k_is_true", "k_and_or", "k_binop_short_circuit", "k_not"],
+    "C16": ["k_set_variable"],
     "C17": ["k_for_bounds", "k_if_dispatch"],
     "C26": ["k_str_slice", "k_str_insert", "k_str_index_length"],
     "C28": ["k_index_of", "k_set_nth", "k_append_join", "k_list_separator"],
@@ -265,6 +266,12 @@ STRUCTURAL_PROBES = {
     "k_if_dispatch": [("@if () { a { b: 1 } } @else { a { b: 2 } }", "b: 1"), ("@if null { a { b: 1 } } @else { a { b: 2 } }", "b: 2"),
                       ("@if unquote(\"\") { a { b: 1 } } @else { a { b: 2 } }", "b: 1"), ("@if 0 { a { b: 1 } } @else { a { b: 2 } }", "b: 1"),
                       ("@if (null null) { a { b: 1 } } @else { a { b: 2 } }", "b: 1"), ("@if false { a { b: 1 } } @else if () { a { b: 3 } } @else { a { b: 2 } }", "b: 3")],
+    "k_set_variable": {
+        "": [("$x: 1; a { $x: 2 !global; } b { c: $x; }", "c: 2"), ("$x: 1; $x: 2 !default; b { c: $x; }", "c: 1"),
+             ("$x: null; $x: 2 !default; b { c: $x; }", "c: 2"), ("$x: 1; a { $x: 2; d: $x; } b { c: $x; }", "c: 1"),
+             ("a { $y: 1; @if true { $y: 2; } c: $y; }", "c: 2")],
+        "an unflagged assignment updates the innermost enclosing scope": [("a { $y: 1; b { $y: 2; } c: $y; }", "c: 2")],
+    },
     "k_and_or": [("inspect(() or 1)", "()"), ("null or 1", "1"), ("0 and 1", "1"), ("false and 1", "false"), ("\"\" or 2", "\"\""), ("inspect((null,) or 3)", "(null,)")],
     "k_binop_short_circuit": [("false and $undefined-variable", "false"), ("true or $undefined-variable", "true")],
     "k_is_true": [("if((), 1, 2)", "1"), ("if(unquote(\"\"), 1, 2)", "1"), ("if(0, 1, 2)", "1"), ("if(null, 1, 2)", "2")],
@@ -276,8 +283,15 @@ STRUCTURAL_PROBES = {
 }
 
 
-def structural_probe(kernel):
+def structural_probe(kernel, label=""):
     probes = STRUCTURAL_PROBES.get(kernel)
+    if isinstance(probes, dict):
+        # probes keyed by a substring of the obligation text ("" = default)
+        chosen = None
+        for key, val in probes.items():
+            if key and key in label:
+                chosen = val
+        probes = chosen if chosen is not None else probes.get("")
     if not probes:
         return None
     diffs = []
@@ -389,7 +403,7 @@ def run(pid, tier, known, log, write_replay_file):
             # violated
             lf = lift(ob)
             if lf is None:
-                lf = structural_probe(kn)
+                lf = structural_probe(kn, ob["obligation"])
             ob["lifted"] = lf
             kmatch = None
             for kid, k in known_ids.items():
